@@ -687,20 +687,27 @@ func J(v interface{}) string {
 	return string(b)
 }
 
-// Ladder returns the size ladder lo..hi: every power of two in the range with its two neighbours
-// (2^k-1, 2^k, 2^k+1), ascending.  Small scopes cannot reach the constants code is tuned around (block
-// sizes, fast-path thresholds, pool size classes); those are powers of two almost without exception,
-// so the ladder is the boundary family for sizes in general.
+// Ladder returns the size ladder lo..hi, ascending: every power of two in the range with its two
+// neighbours (2^k-1, 2^k, 2^k+1), every power of ten with its two neighbours, and the halfway marks
+// 3*2^k and 5*10^j.  Small scopes cannot reach the constants code is tuned around (block sizes, fast-path
+// thresholds, pool size classes); those are powers of two almost without exception and round decimal
+// numbers otherwise, so the ladder is the boundary family for sizes in general.
 func Ladder(lo, hi int) []int {
 	var out []int
 	seen := map[int]bool{}
-	for p := 1; p-1 <= hi; p *= 2 {
-		for _, n := range []int{p - 1, p, p + 1} {
+	add := func(ns ...int) {
+		for _, n := range ns {
 			if n >= lo && n <= hi && !seen[n] {
 				seen[n] = true
 				out = append(out, n)
 			}
 		}
+	}
+	for p := 1; p-1 <= hi; p *= 2 {
+		add(p-1, p, p+1, 3*p)
+	}
+	for p := 10; p-1 <= hi; p *= 10 {
+		add(p-1, p, p+1, 5*p)
 	}
 	sort.Ints(out)
 	return out
